@@ -293,6 +293,17 @@ def gen_case(rng, small=False, errors=True):
     return case
 
 
+def probe_cases():
+    ev = [{"p": p, "q": qq, "j": 0, "pt": pt, "eta": eta, "pdg": 211}
+          for p, qq, pt, eta in ((0, 1, 0.5, 0.25), (1, 1, 0.75, -0.25), (1, 2, 1.5, 0.75), (-1, 3, 0.25, 0.25), (2, 1, 1.25, -0.75), (1, 0, 0.5, 0.25))]
+    out = []
+    for sel in SELECTORS:
+        for k in (2, 4):
+            out.append({"n": 2, "k": k, "imag": "negative", "mode": "diff", "events": [ev, ev[:5]], "sel": sel,
+                        "bins": [-3.0, 3.0], "poi": None})
+    return out
+
+
 def nontrivial(c):
     return c["k"] in (2, 4, 6) and any(len(e) >= c["k"] for e in c["events"])
 
@@ -466,6 +477,18 @@ def correspondence(ctx, model_ok=True):
     out["tolerance_agreements"] = sum(1 for c in codes if c == 1)
     out["traces_validated_against_impl"] = sum(1 for c in codes if c <= 1)
     per_class = {}
+    # documented-argument probes: every documented selector / default must be accepted and give the defined value
+    for pc in probe_cases():
+        try:
+            msg = oracle(pc)
+        except Exception as e:  # noqa
+            msg = f"oracle crashed: {type(e).__name__}: {e}"
+        if msg:
+            cl = failure_class(pc, msg)
+            if cl not in per_class:
+                per_class[cl] = 1
+                out["failures"].append(Failure(pc, f"{cl}: documented-argument probe", on_impl=msg))
+    out["documented_argument_probes"] = len(probe_cases())
     for c, g, code in zip(cases, gots, codes):
         if code >= 2:
             try:
